@@ -218,3 +218,17 @@ func vfH_C04_session_write_admission() {
 	vfReach("post")
 	s.Close() // native: releases a writer left blocked
 }
+
+// C04 "all window sizes set before traffic starts": WndSize installs exactly the windows it is
+// given (a non-positive argument leaves that window as it was) — the limits the other harnesses
+// assert are relative to these fields, so they must be the configured ones.
+func vfH_C04_wndsize() {
+	k := NewKCP(vfU32("conv"), func([]byte, int) {})
+	s0, r0 := k.snd_wnd, k.rcv_wnd
+	s, r := vfIntRange("sndwnd", -3, 70000), vfIntRange("rcvwnd", -3, 70000)
+	vfReach("pre")
+	k.WndSize(s, r)
+	vfReach("post")
+	vfAssert("wndsize/send-window-installed", k.snd_wnd == vfIteU32(s > 0, uint32(s), s0))
+	vfAssert("wndsize/receive-window-installed", k.rcv_wnd == vfIteU32(r > 0, uint32(r), r0))
+}
